@@ -273,6 +273,20 @@ func runC11(r *core.Run) {
 		c11Check(r, m, keys, 1)
 	})
 	c11Derived(r)
+	// delimiter-heavy family: strings are length-prefixed, so ';' and '=' are ordinary content - in bulk, too
+	// (1..8 pairs whose keys and values consist of 255, 200 or 3 delimiter bytes)
+	for n := 1; n <= 8; n++ {
+		for _, fill := range []string{";", "=", ";=", "\x00"} {
+			for _, l := range []int{255, 200, 3} {
+				m := map[string]string{}
+				for i := 0; i < n; i++ {
+					k := strings.Repeat(fill, l)[:l-1] + string(rune('a'+i))
+					m[k] = strings.Repeat(fill, l)[:l]
+				}
+				c11Check(r, m, nil, 1)
+			}
+		}
+	}
 	// pair-count family: many small pairs (far below 65,535 bytes), with the greatest key's pair of ordinary
 	// length and as the shortest possible pair (one-byte key, empty value: the parser's short-tail path)
 	var countCases []map[string]string
